@@ -463,6 +463,142 @@ fn run(ctx: &mut Ctx) {
         }
         ctx.count("boards checked for history independence of the maps");
     });
+    // ---- crafted histories (one fresh thread each, so that per-thread state starts from scratch):
+    // (a) a board asked in one map epoch, then exactly N changes of run number that do not touch it, then the same board in
+    //     another epoch, N around 2^8 and 2^16 (a generation counter or a small table wraps there);
+    // (b) two consecutive questions (run 1, board 1), (run 2, board 2) whose run numbers are chosen so that run and board
+    //     collide under xor / sum / difference of the run number with any 4-byte window of the board's MAC address or
+    //     device id, either byte order (a memo identified by such a fingerprint would confuse them).
+    // Every answer is compared with the documented epochs applied to reference tables taken at runs 5000 and 10418.
+    let pwb_ref_tables: Vec<Vec<Option<String>>> = [5000u32, 10418].iter().map(|r| pwb.iter().map(|b| TpcPwbPosition::try_new(*r, *b).ok().map(|p| format!("{:?}", p))).collect()).collect();
+    let wire_ref_table: Vec<Vec<Option<usize>>> = a16.iter().map(|b| (0..32u8).map(|c| TpcWirePosition::try_new(5000, *b, Adc32ChannelId::try_from(c).unwrap()).ok().map(usize::from)).collect()).collect();
+    let pwb_expected = |run: u32, bi: usize| -> Option<String> {
+        if run == u32::MAX || (4418..10418).contains(&run) {
+            pwb_ref_tables[0][bi].clone()
+        } else if run >= 10418 {
+            pwb_ref_tables[1][bi].clone()
+        } else {
+            None
+        }
+    };
+    let wire_expected = |run: u32, bi: usize, ch: usize| -> Option<usize> { if run >= 2941 { wire_ref_table[bi][ch] } else { None } };
+    ctx.cases("long-histories", 71, |ctx, bi, rng| {
+        let bi = bi as usize;
+        let b = pwb[bi];
+        let other = pwb[(bi + 1 + rng.usize(69)) % 71];
+        let filler: Vec<u32> = vec![5000, 10418, 17, 4418, u32::MAX, 10417, 0, 20000, 12000, 4417];
+        for n in [255usize, 256, 257, 511, 512, 65_535, 65_536, 65_537] {
+            if n > 1000 && ctx.quick() && bi % 8 != 0 {
+                continue;
+            }
+            for (first, last) in [(5000u32, 10418u32), (10418, 5000), (10418, u32::MAX), (u32::MAX, 10418), (5000, 17)] {
+                let filler = filler.clone();
+                let r = fresh_thread(move || {
+                    let f = |r: u32, b: padwing::BoardId| TpcPwbPosition::try_new(r, b).ok().map(|p| format!("{:?}", p));
+                    let a = f(first, b);
+                    // exactly n changes of run number in all (the last one lands on `last`), none of them touching b
+                    let mut prev = first;
+                    let mut k = 0usize;
+                    let mut changes = 0usize;
+                    while changes + 1 < n {
+                        let r = filler[k % filler.len()];
+                        k += 1;
+                        if r == prev || (changes + 2 == n && r == last) {
+                            continue;
+                        }
+                        let _ = f(r, other);
+                        prev = r;
+                        changes += 1;
+                    }
+                    let z = f(last, b);
+                    (a, z)
+                });
+                ctx.eval();
+                match r {
+                    Ok((a, z)) if a == pwb_expected(first, bi) && z == pwb_expected(last, bi) => ctx.count("long histories agreeing with the reference"),
+                    Ok((a, z)) => {
+                        ctx.violation("pad position of a (run, board, chip, channel) depends on the calls made before", format!("board {} asked at run {}, then {} changes of run number on another board, then at run {}: got {:?} then {:?}, reference {:?} then {:?}", b.name(), first, n, last, a, z, pwb_expected(first, bi), pwb_expected(last, bi)), json!({"board": b.name(), "n": n}));
+                        return;
+                    }
+                    Err(p) => {
+                        ctx.panic_violation("TpcPwbPosition::try_new", &p, json!({}));
+                        return;
+                    }
+                }
+            }
+        }
+    });
+    ctx.cases("crafted-collisions", 64 + 71, |ctx, i, rng| {
+        let i = i as usize;
+        let bases: [u32; 6] = [100, 2940, 2941, 5000, 10418, u32::MAX];
+        let windows = |mac: &[u8; 6]| -> Vec<u32> {
+            let mut v = Vec::new();
+            for o in 0..=2 {
+                let w: [u8; 4] = mac[o..o + 4].try_into().unwrap();
+                v.push(u32::from_le_bytes(w));
+                v.push(u32::from_be_bytes(w));
+            }
+            v
+        };
+        if i < 64 {
+            // wires: every ordered pair of the 8 Alpha16 boards
+            let (i1, i2) = (i / 8, i % 8);
+            if i1 == i2 {
+                return;
+            }
+            let (m1, m2) = (windows(&crate::enc::A16_MACS[i1].1), windows(&crate::enc::A16_MACS[i2].1));
+            for (w1, w2) in m1.iter().zip(&m2) {
+                for &r2 in &bases {
+                    for r1 in [r2 ^ w1 ^ w2, r2.wrapping_add(*w2).wrapping_sub(*w1), r2.wrapping_sub(*w2).wrapping_add(*w1), r2 ^ w1, r2 ^ w2] {
+                        let ch = rng.usize(32);
+                        let (b1, b2) = (a16[i1], a16[i2]);
+                        let c = Adc32ChannelId::try_from(ch as u8).unwrap();
+                        let r = fresh_thread(move || (TpcWirePosition::try_new(r1, b1, c).ok().map(usize::from), TpcWirePosition::try_new(r2, b2, c).ok().map(usize::from)));
+                        ctx.eval();
+                        match r {
+                            Ok((x, y)) if x == wire_expected(r1, i1, ch) && y == wire_expected(r2, i2, ch) => ctx.count("crafted (run, board) pairs agreeing with the reference"),
+                            Ok((x, y)) => {
+                                ctx.violation("wire position depends on the calls made before", format!("(run {}, board {}) then (run {}, board {}), channel {}: got {:?} then {:?}, reference {:?} then {:?}", r1, A16[i1], r2, A16[i2], ch, x, y, wire_expected(r1, i1, ch), wire_expected(r2, i2, ch)), json!({"runs": [r1, r2]}));
+                                return;
+                            }
+                            Err(p) => {
+                                ctx.panic_violation("TpcWirePosition::try_new", &p, json!({}));
+                                return;
+                            }
+                        }
+                    }
+                }
+            }
+        } else {
+            // PadWing boards: board k against three others
+            let i1 = i - 64;
+            for step in [1usize, 17, 40] {
+                let i2 = (i1 + step) % 71;
+                let (m1, m2) = (windows(&PWB_BOARDS[i1].1), windows(&PWB_BOARDS[i2].1));
+                for (w1, w2) in m1.iter().zip(&m2) {
+                    for &r2 in &bases {
+                        for r1 in [r2 ^ w1 ^ w2, r2.wrapping_add(*w2).wrapping_sub(*w1), r2.wrapping_sub(*w2).wrapping_add(*w1)] {
+                            let (b1, b2) = (pwb[i1], pwb[i2]);
+                            let f = move |r: u32, b: padwing::BoardId| TpcPwbPosition::try_new(r, b).ok().map(|p| format!("{:?}", p));
+                            let r = fresh_thread(move || (f(r1, b1), f(r2, b2)));
+                            ctx.eval();
+                            match r {
+                                Ok((x, y)) if x == pwb_expected(r1, i1) && y == pwb_expected(r2, i2) => ctx.count("crafted (run, board) pairs agreeing with the reference"),
+                                Ok((x, y)) => {
+                                    ctx.violation("pad position of a (run, board, chip, channel) depends on the calls made before", format!("(run {}, board {}) then (run {}, board {}): got {:?} then {:?}, reference {:?} then {:?}", r1, PWB_BOARDS[i1].0, r2, PWB_BOARDS[i2].0, x, y, pwb_expected(r1, i1), pwb_expected(r2, i2)), json!({"runs": [r1, r2]}));
+                                    return;
+                                }
+                                Err(p) => {
+                                    ctx.panic_violation("TpcPwbPosition::try_new", &p, json!({}));
+                                    return;
+                                }
+                            }
+                        }
+                    }
+                }
+            }
+        }
+    });
     // ---- the maps asked from 8 threads at once, each thread for its own run number (runs on both sides of every map
     // epoch): every answer against the reference table of its run. State shared between threads must be updated as one.
     ctx.cases("concurrent", ctx.tier.pick(8, 64), |ctx, i, rng| {
